@@ -191,6 +191,24 @@ def script(idx, prefix, ctx, platform="ios"):
             if acl.line != numbered:
                 ctx.viol("Acl.sort:after_reverse", dict(case, grouped=grouped), acl.line, numbered)
                 return
+        # an address re-pointed from a group reference to a plain address counts 1
+        grp_aces = [it for it in lst if it.is_ace and it.acex.src.group and it.acex.src.members]
+        if grp_aces:
+            from cisco_acl import Ace as _Ace
+
+            acl3 = PR.build_acl(lst, platform)
+            want = tcam
+            for o, it in zip([x for x in acl3.items if isinstance(x, _Ace)], [i for i in lst if i.is_ace]):
+                if it.acex.src.group and it.acex.src.members:
+                    o.srcaddr.line = "host 10.9.9.9"
+                    dst_n = (len(it.acex.dst.members) or 1) if it.acex.dst.group else 1
+                    want += dst_n - len(it.acex.src.members) * dst_n
+            ctx.trans()
+            if acl3.tcam_count() != want:
+                ctx.viol("Acl.tcam_count:plain_address_counted_with_stale_members", case,
+                         acl3.tcam_count(), want)
+                return
+            ctx.out("tcam_after_repointing")
         # a loose entry appended to a grouped ACL, then group() again: with distinct headings the
         # text must not change (the loose entry joins the last block, nothing moves)
         if prefix and distinct and heads:
